@@ -8,6 +8,17 @@ import sys
 HERE = os.path.dirname(os.path.abspath(__file__))
 sys.path.insert(0, HERE)
 import manifest_data as md  # noqa: E402
+import common  # noqa: E402
+
+
+def obligations(pid):
+    """Names of the property theorems (every non-private theorem of Props/Cxx*.lean), as audited on every run."""
+    try:
+        names = [n.split(".")[-1] for n in common.theorem_names(pid)]
+    except Exception:
+        return ""
+    return (" OBLIGATIONS re-checked on every run (%d, `#print axioms` within propext/Quot.sound/Classical.choice): %s."
+            % (len(names), ", ".join(names)))
 
 ALL = ["C%02d" % i for i in range(1, 21)]
 
@@ -25,7 +36,7 @@ def main():
             "evidence_file": "evidence/%s.json" % pid,
             "replay_cmd_template": "/venv/bin/python harness/check.py %s --replay {path}" % pid,
             "engine": "lean4-proof+correspondence",
-            "level_claimed": {"category": "proof", "text": c["text"], "design_ref": c.get("design_ref", "DESIGN.md §5 " + pid)},
+            "level_claimed": {"category": "proof", "text": c["text"] + obligations(pid), "design_ref": c.get("design_ref", "DESIGN.md §5 " + pid)},
             "level_note": c["note"],
             "technique": c["technique"],
         })
